@@ -198,13 +198,16 @@ def ev_class(ea, eb, i):
 
 
 PROFILE = {
+    'client_flavours': ['plain', 'plain', 'plain', 'plain', 'jsonp', 'gzip', 'jsonp+gzip'],
     'weights': {'open': 3, 'poll': 3, 'post': 5, 'probe_step': 4, 'ws_send': 3, 'ws_close': 1,
                 'ws_fail': 1, 'pong': 1, 'app_send': 4, 'app_disconnect': 2, 'advance': 3,
                 'fault': 1, 'vanish': 1, 'request': 3, 'api': 1},
     'max_sessions': 3,
     'packet_kinds': [('msg', 5), ('pong', 1), ('close', 1), ('upgrade', 1), ('bad', 2)],
     'post_modes': [('pkts', 8), ('raw', 2), ('many', 1)],
-    'config': {'transports': st.sampled_from([None, None, None, ['polling'], ['websocket']]),
+    'config': {'http_compression': st.sampled_from([True, False]),
+               'compression_threshold': st.sampled_from([0, 1024]),
+               'transports': st.sampled_from([None, None, None, ['polling'], ['websocket']]),
                'ping_interval': st.sampled_from([5, 25]),
                'ping_timeout': st.sampled_from([5, 20]),
                'max_http_buffer_size': st.sampled_from([1000000, 1000000, 60]),
